@@ -177,9 +177,9 @@ Definition check_limiter (c : limiter_case) : N :=
 
 (* ---------------- (C) loopback host scenarios *)
 (* scenario: 0 malformed request, 1 malformed response, 2 unknown procedure request, 3 unknown procedure response,
-   4 rate excess (limit 3, penalty 100, 5 messages), 5 ApplyPenalty 40 three times, 6 BanPeer, 7 legal traffic, 8 blacklisted.
+   4 rate excess (limit 3, penalty 100, 4 messages), 5 ApplyPenalty 40 three times, 6 BanPeer, 7 legal traffic, 8 blacklisted.
    observation: [connected_before; banned_after; connected_after; dial_in_refused; dial_out_refused;
-                 banned_after_expiry; dial_in_ok_after_expiry], has a score entry afterwards, score afterwards,
+                 banned_after_expiry; dial_in_ok_after_expiry; dial_out_ok_after_expiry], has a score entry afterwards, score afterwards,
                  has an entry after expiry *)
 Definition hosts_case : Type := (N * list bool * bool * Z * bool)%type.
 
@@ -195,7 +195,7 @@ Definition hosts_model (scen : N) : mnode :=
   match scen with
   | 0%N | 1%N => on_message true (fun p => (p =? 0)%N) (m0 100 10) B IP Malformed now
   | 2%N | 3%N => on_message true (fun p => (p =? 0)%N) (m0 100 10) B IP (WellFormed 7%N) now
-  | 4%N => msgs 5 (m0 3 100) now
+  | 4%N => msgs 4 (m0 3 100) now
   | 5%N => let m := m0 100 10 in
            mkMN (apply_penalty (apply_penalty (apply_penalty (nd m) B 40 now) B 40 now) B 40 now) (rl m)
   | 6%N => let m := m0 100 10 in mkMN (ban_peer_id (nd m) B now) (rl m)
@@ -214,7 +214,8 @@ Definition hosts_model_obs (scen : N) : list bool * bool * Z * bool :=
   let refused_out := node_eqb_conns (connect_out (mkNode (gt n) []) B IP) (mkNode (gt n) []) in
   let g3 := sweep (gt n) 1003 in
   let in_ok_after := negb (node_eqb_conns (connect_in (mkNode g3 []) B IP) (mkNode g3 [])) in
-  ([negb (scen =? 8)%N; banned (gt n) IP; connected n B; refused_in; refused_out; banned g3 IP; in_ok_after],
+  let out_ok_after := negb (node_eqb_conns (connect_out (mkNode g3 []) B IP) (mkNode g3 [])) in
+  ([negb (scen =? 8)%N; banned (gt n) IP; connected n B; refused_in; refused_out; banned g3 IP; in_ok_after; out_ok_after],
    match sc (gt n) IP with Some _ => true | None => false end, score_of (gt n) IP,
    match sc g3 IP with Some _ => true | None => false end).
 
@@ -224,9 +225,9 @@ Definition hosts_spec (scen : N) (o : list bool) (has : bool) (score : Z) (has_a
   | 7%N => (* legal traffic: never penalised, stays connected, not refused *)
       beq_list Bool.eqb (firstn 4 o) [true; false; true; false] && negb has
   | 8%N => (* blacklisted: refused in both directions, for ever *)
-      beq_list Bool.eqb o [false; false; false; true; true; false; false]
+      beq_list Bool.eqb o [false; false; false; true; true; false; false; false]
   | _ => (* offence reaching the threshold: banned, disconnected, refused both ways until expiry, then accepted, clean *)
-      beq_list Bool.eqb o [true; true; false; true; true; false; true] && has && (max_penalty <=? score) && negb has_after
+      beq_list Bool.eqb o [true; true; false; true; true; false; true; true] && has && (max_penalty <=? score) && negb has_after
   end.
 
 Definition check_hosts (c : hosts_case) : N :=
